@@ -85,6 +85,10 @@ class Trace:
         self.by_task = defaultdict(list)
         for ix, e in enumerate(self.ev):
             self.by_task[e['t']].append(ix)
+        self.prev = {}
+        for t, ixs in self.by_task.items():
+            for a, b in zip(ixs, ixs[1:]):
+                self.prev[b] = a
         self.sections = []
         self.sec_of_acq = {}
         self._sections()
@@ -203,6 +207,20 @@ class Encoder:
         for s in tr.sections:
             if s.acq in inc:
                 by_obj[s.obj].append(s)
+        # a failed try_* found the lock held: it falls inside a conflicting section of another task
+        for ix in inc:
+            e = tr.ev[ix]
+            if e['k'] != 'tryfail':
+                continue
+            alts = []
+            for s in by_obj.get(e['x']['obj'], []):
+                if s.task == e['t'] or not (s.write or e['x']['w']):
+                    continue
+                if s.rel is not None and s.rel in inc:
+                    alts.append(z3.And(O[s.acq] < O[ix], O[ix] < O[s.rel]))
+                else:
+                    alts.append(O[s.acq] < O[ix])
+            c.append(z3.Or(alts) if alts else z3.BoolVal(False))
         for obj, ss in by_obj.items():
             for a in range(len(ss)):
                 for b in range(a + 1, len(ss)):
@@ -630,8 +648,8 @@ def monitors(tr, props):
         # no lost wake-up: a task posted with no abort pending is eventually run
         if finished or (ab and ab['kind'] == 'deadlock'):
             for tid, pix in posted.items():
-                if tid not in ids and (abort_begin is None or False):
-                    v.append(('C08', 'lost-task', 'task %d posted, never run, no abort' % tid))
+                if tid not in ids and (abort_begin is None or meta.get('quiescent_before_abort')):
+                    v.append(('C08', 'lost-task', 'task %d posted with no abort pending, never run' % tid))
             if ab and ab['kind'] == 'deadlock':
                 waiting = [b for b in ab['blocked'] if b['kind'] == 'condvar']
                 if waiting and abort_end is not None:
@@ -804,7 +822,6 @@ def flips(tr, enc, tried, limit):
             key = (r.task, r.obj, r.ordinal, (w.task, w.ordinal) if w else None, prefix_key(tr, r))
             if key in tried:
                 continue
-            tried.add(key)
             if len(out) >= limit:
                 return out
             # causal prefix: everything before r's request in r's task, w up to its release
@@ -813,7 +830,8 @@ def flips(tr, enc, tried, limit):
             seeds = ([pred[-1]] if pred else []) + ([w.rel] if w is not None else [])
             inc = enc.closure(seeds, free=(r, w)) if seeds else set()
             if r.acq in inc:
-                continue  # w causally depends on r
+                continue  # w causally depends on r (in this trace: the pair stays open for other traces)
+            tried.add(key)
             inc2 = set(inc)
             # r's request/acquire take part as events
             for i in tr.by_task[r.task]:
@@ -856,6 +874,31 @@ def flips(tr, enc, tried, limit):
                 order = enc.solve(cons, sorted(incv))
                 if order is not None:
                     out.append(order)
+    # try_read / try_write / try_lock that succeeded: can it be made to find the lock held?
+    for r in tr.sections:
+        rq = tr.prev.get(r.acq)
+        if rq is None or tr.ev[rq]['k'] != 'req' or not tr.ev[rq]['x'].get('try'):
+            continue
+        for s2 in tr.sections:
+            if s2.obj != r.obj or s2.task == r.task or not (s2.write or r.write):
+                continue
+            key = ('try', r.task, r.obj, r.ordinal, s2.task, s2.ordinal, prefix_key(tr, r))
+            if key in tried:
+                continue
+            if len(out) >= limit + 8:
+                return out
+            inc = enc.closure([rq, s2.acq])
+            if r.acq in inc or (s2.rel is not None and s2.rel in inc):
+                continue
+            tried.add(key)
+            O = enc.O
+            cons = enc.base(inc) + enc.rf_consistency(inc)
+            # the try (its outcome event takes r.acq's place in the task) happens while s2 is open
+            cons += [O[rq] < O[r.acq], O[s2.acq] < O[r.acq]]
+            cons += [O[i] < O[r.acq] for i in inc]
+            order = enc.solve(cons, sorted(inc) + [r.acq])
+            if order is not None:
+                out.append(order)
     return out
 
 
